@@ -8,7 +8,8 @@ EXPLANATION = ("Sibling cross-check over the resolved program: the code-word lit
                "predicates (MT103/202/205) are compared for disjointness (reject vs return) and equality across "
                "types (R1); the message-level predicates must downcast to exactly the types that define the "
                "predicate; in the parse plugin each of the 30 arms' method selection chain is extracted and "
-               "checked against predicate -> method, priority order and sibling agreement of block-3 tests (R2).")
+               "checked against predicate -> method, priority order and sibling agreement of block-3 tests (R2); every "
+               "narrative vector a predicate reads is traversed completely, never selected by position (R3).")
 ASSUMPTIONS = ["the code words are the string literals passed to str::contains in the predicates"]
 
 
@@ -16,6 +17,7 @@ def run(F, tier):
     rep = Report("C17")
     r = classify.r1(rep, F)
     r2 = classify.r2(rep, F)
+    classify.r3(rep, F)
     rep.sample({"literals": r.get("literals")})
     rep.sample({"classifying_arms": r2.get("classifying_arms")})
     accept.u6(rep, F, "predicates")
